@@ -208,3 +208,21 @@ pub fn odd_string(rng: &mut Rng, v: &mut Vec<u8>) {
         _ => { v.push(0); let k = rng.below(v.len() as u64) as usize; v.insert(k, b'\t'); }
     }
 }
+
+/// a long history observed only at the start and after the given numbers of operations (carries of a 16- or 32-bit count)
+pub fn history_at(ctor: Sx, ops: Vec<Sx>, marks: &[usize]) -> Sx {
+    let mut v = vec![ctor, a(1)];
+    for (i, op) in ops.into_iter().enumerate() {
+        v.push(op);
+        if marks.contains(&(i + 1)) {
+            v.push(a(1));
+        }
+    }
+    l(v)
+}
+
+/// does this run want the 65 536-entry histories?  (always in the thorough tier; in the quick tier for the checksum and
+/// length properties, whose oracles are linear in the image)
+pub fn wants_long_runs(tier: &str, emit: &crate::Emit) -> bool {
+    tier == "thorough" || emit.prop() == 1 || emit.prop() == 2
+}
